@@ -34,7 +34,11 @@ pub open spec fn op_code(o: Op) -> int {
 pub uninterp spec fn value_type(v: Value) -> Result<TypeV, VErr>;
 pub uninterp spec fn negatable(t: TypeV) -> bool;
 pub uninterp spec fn negated(v: Value) -> Result<Option<Value>, VErr>;
+// Value::try_constexpr_eval (folding of a value that is already a literal): abstract -- NOT known to be the identity (an integer literal
+// that does not fit its kind is re-labelled by it)
+pub uninterp spec fn refolded(v: Value) -> Result<ConstexprEvaluation, VErr>;
 impl Value {
+    #[verifier::external_body] pub fn try_constexpr_eval(&self) -> (r: Result<ConstexprEvaluation, VErr>) ensures r == refolded(*self) { unimplemented!() }
     #[verifier::external_body] pub fn verif_for_type(&self) -> (r: Result<TypeV, VErr>) ensures r == value_type(*self) { unimplemented!() }
     #[verifier::external_body] pub fn try_negate(&self) -> (r: Result<Option<Value>, VErr>) ensures r == negated(*self) { unimplemented!() }
 }
